@@ -57,6 +57,8 @@ SCRIPTS = {
 PAIRS = {
     "valid-avr": ("atmelavr", "uno"),
     "valid-mega": ("atmelmegaavr", "nano_every"),
+    "valid-hyphen": ("atmelavr", "digispark-tiny"),   # board ids that are not identifiers: the env name is derived, the board key is not
+    "valid-mixedcase": ("atmelavr", "a-star32U4"),
     "mismatch": ("atmelavr", "nano_every"),
     "unknown-board": ("atmelavr", "uno "),
     "unknown-platform": ("espressif32", "uno"),
